@@ -312,6 +312,13 @@ func c07Run(run *hx.Run, o, o2 *hx.Oracle, sdir string, idx int, sc c07Scenario)
 		var want map[string][]hx.Row
 		if !ws.BlocksReaders() {
 			want, err = sqliteVersioned(o, path)
+			if err != nil && strings.Contains(err.Error(), "locked") {
+				// the reference reader itself is refused at this point (it wants to roll a journal back while the
+				// scenario's foreign reader holds SHARED): there is no reference to compare with, the point is skipped
+				run.Count("frozen_points_skipped_reference_reader_refused", 1)
+				st.Release()
+				continue
+			}
 			if err != nil {
 				run.Inconclusive(fmt.Sprintf("%s point %d (%s, %s): SQLite itself cannot read: %v", name, points, ws, journal, err))
 				st.Go()
